@@ -115,6 +115,11 @@ def _items(tier):
 
 
 def cases(tier, seed):
+    # nothing is wrong, but things take long (virtual clock): a layer setUp /
+    # tearDown of 75 s and of more than an hour, a test of 90 s
+    for what in ('setUp', 'tearDown', 'test', 'all'):
+        for m in ('seq', 'j2', 'v', 'j2vv', 'q'):
+            yield ['slow', what, m]
     modes = ['seq', 'j1', 'j2', 'j3', 'v', 'j2vv', 't', 'lvl', 'j2t', 'q', 'j2q']
     for shape, sc, lf, bm in _items(tier):
         for m in worlds.rot(modes, seed):
@@ -320,6 +325,27 @@ def run_case(case):
                          'detail': 'the child of layer B dies in a test body by %s (%s), everything else passes: exit status %r\n%s' % (case[1], case[2], res.rc, res.text[-800:])})
         return {'evals': 1, 'nontrivial': 1, 'violations': viol, 'outcome': 'crash', 'nogate': True,
                 'counters': {'real_process_runs': 1}}
+    if case[0] == 'slow':
+        _, what, m = case
+        spec = ow.build('A1B2c', ['pass', 'pass', 'pass'])
+        for i, L in enumerate(spec['layers']):
+            if what in ('setUp', 'tearDown', 'all'):
+                L['slow'] = [75, 3700][i % 2]
+                if what != 'all':
+                    L['slow_only'] = what
+        if what in ('test', 'all'):
+            spec['tests'][0]['slowt'] = 90
+            spec['tests'][-1]['slowt'] = 4000
+        res = runrt.run_world(spec, list(MODES[m]), probe=False)
+        viol = []
+        sig = {'part': 'slow', 'mode': m, 'what': what}
+        if res.escaped:
+            viol.append({'clause': 'run_aborted', 'sig': sig, 'detail': res.escaped_tb})
+        elif res.failed:
+            viol.append({'clause': 'false_fail', 'sig': sig,
+                         'detail': 'every test passes, %s takes more than a minute (virtual clock), argv %s: Runner.failed=%r; failures %s errors %s\n%s'
+                                   % (what, MODES[m], res.failed, res.failures, res.errors, res.text[-800:])})
+        return {'evals': 1, 'nontrivial': 1, 'violations': viol, 'outcome': ('slow', bool(res.failed))}
     if case[0] == 'big':
         _, bad_at, nie, m = case
         spec = ow.big_spec(nie=nie, scripts=['pass', 'pass', 'skip_body', 'xfail', 'skip_dec', 'sub:0,0,2'], bad_at=bad_at)
